@@ -23,7 +23,7 @@ func init() { sim.Register(c08{}) }
 func (c08) ID() string    { return "C08" }
 func (c08) Level() string { return "exploration" }
 func (c08) Rule() string {
-	return "histories of creation / operations (unary, binary, n-ary, comparison, reduction, shape) / BackPropagate / ResetGradContext / Gradient() pulls / invalid calls by 1-4 clients over one shared tensor pool, interleaved at call granularity; every tracking decision comes from a 3-field reference state machine per tensor (tracked, spent, hasGrad + operand links) that also enforces the property's two provisos when generating; checked after every step on every pool tensor, plus an untracked twin run (forward values bitwise equal) and a final sweep that back-propagates everything the provisos still allow. Non-trivial: a spent tensor was reused AND a reset tensor was re-tracked and back-propagated again AND two clients' steps interleaved on a shared tensor. Distinct: hash of the (client, op, operands, flag) sequence."
+	return "histories of creation / operations (unary, binary, n-ary, comparison, reduction, shape) / BackPropagate / ResetGradContext / Gradient() pulls / invalid calls by 1-4 clients over one shared tensor pool, interleaved at call granularity; every tracking decision comes from a 3-field reference state machine per tensor (tracked, spent, hasGrad + operand links) that also enforces the property's two provisos when generating; checked after every step on every pool tensor, plus an untracked twin run (forward values bitwise equal) and a final sweep that back-propagates everything the provisos still allow. Non-trivial: a spent tensor was reused AND a reset tensor was re-tracked and back-propagated again AND two clients' steps interleaved on a shared tensor. Distinct: hash of the (client, op, operands, flag) sequence. Rare wide flavour (70-330 consumers of one tensor); rejected calls from the shared invalid-call catalogue; the final sweep is bounded to 48 roots on long histories; a tracked root must visibly receive its start gradient."
 }
 func (c08) Assumptions() []string {
 	return []string{
@@ -34,7 +34,7 @@ func (c08) Assumptions() []string {
 }
 func (c08) Extra() map[string]any {
 	e := baseExtra()
-	e["fault_kinds"] = []string{"invalid-call (BackPropagate(nil), nil operand, shape mismatch)", "reorder (call-granularity interleaving of clients on shared tensors)"}
+	e["fault_kinds"] = []string{"invalid-call (BackPropagate(nil), nil operand, shape mismatch, the shared catalogue of rejected calls)", "reorder (call-granularity interleaving of clients on shared tensors)"}
 	return e
 }
 
